@@ -45,6 +45,10 @@ type C16Case struct {
 	// Bulk > 0: the requesting buffer also declares that many accounts "bulk:c000" .. (more names than
 	// any limit below 200 lets through)
 	Bulk int `json:"bulk,omitempty"`
+	// Trigger: when the character before the cursor is one of the server's trigger characters (: @ =),
+	// the request says so, as an editor's does when that character has just been typed. What was typed
+	// does not change where the cursor stands.
+	Trigger bool `json:"trigger,omitempty"`
 }
 
 func c16BulkName(i int) string { return fmt.Sprintf("bulk:c%03d", i) }
@@ -231,7 +235,11 @@ func c16Ask(c *C16Case, max int) ([]protocol.CompletionItem, refclient.Pos, stri
 	var res *protocol.CompletionList
 	var rerr error
 	if perr := lspx.Guard(func() {
-		res, rerr = env.H.S.Completion(context.Background(), &protocol.CompletionParams{TextDocumentPositionParams: tdpp(uri, pos)})
+		params := &protocol.CompletionParams{TextDocumentPositionParams: tdpp(uri, pos)}
+		if typed := c.Sit.Before + c.Sit.Fragment; c.Trigger && typed != "" && strings.ContainsAny(typed[len(typed)-1:], ":@=") {
+			params.Context = &protocol.CompletionContext{TriggerKind: protocol.CompletionTriggerKindTriggerCharacter, TriggerCharacter: typed[len(typed)-1:]}
+		}
+		res, rerr = env.H.S.Completion(context.Background(), params)
 	}); perr != nil {
 		return nil, pos, text, perr
 	}
@@ -518,7 +526,7 @@ func genC16(t *rapid.T, p *gen.Profile) *C16Case {
 			}
 		}
 	}
-	c := &C16Case{WS: ws, Root: rapid.Bool().Draw(t, "root"), Fuzzy: rapid.Bool().Draw(t, "fuzzy"), Count: rapid.Bool().Draw(t, "counts")}
+	c := &C16Case{WS: ws, Root: rapid.Bool().Draw(t, "root"), Fuzzy: rapid.Bool().Draw(t, "fuzzy"), Count: rapid.Bool().Draw(t, "counts"), Trigger: rapid.Bool().Draw(t, "trigger")}
 	if c.Root && rapid.IntRange(0, 3).Draw(t, "inroottree") != 0 {
 		c.From = rapid.SampledFrom(ws.Reachable(0)).Draw(t, "from")
 	} else {
@@ -621,6 +629,9 @@ func genC16(t *rapid.T, p *gen.Profile) *C16Case {
 		s.Fragment = strings.TrimLeft(s.Fragment, ".")
 	case "tagname":
 		s.Header, s.Before = c16CommentLine(t, names, header, indent)
+		if rapid.IntRange(0, 2).Draw(t, "textbeforetag") == 0 {
+			s.Before += "lunch with bob " // ordinary comment text before the tag: a name is one word
+		}
 		s.Fragment = genFragment(t, pick(t, names.tags.all, "k", "name"))
 		if strings.ContainsAny(s.Fragment, ":,") {
 			s.Fragment = ""
@@ -629,6 +640,9 @@ func genC16(t *rapid.T, p *gen.Profile) *C16Case {
 		tn := pick(t, names.tags.all, "k", "tname")
 		s.TagName = tn
 		s.Header, s.Before = c16CommentLine(t, names, header, indent)
+		if rapid.IntRange(0, 2).Draw(t, "textbeforetag") == 0 {
+			s.Before += "lunch with bob "
+		}
 		s.Before += tn + ":"
 		vs := map[string]bool{}
 		if names.tagValues[tn] != nil {
@@ -669,6 +683,17 @@ func genC16(t *rapid.T, p *gen.Profile) *C16Case {
 				s = C16Sit{Kind: "commodity", Header: header, Before: indent + pick(t, names.accounts.all, "assets:cash", "bacct") + "  ", Fragment: frag, After: rapid.SampledFrom([]string{"12.50", "5", "1,000.00 = 3"}).Draw(t, "bnum")}
 			}
 		}
+	}
+	if rapid.IntRange(0, 7).Draw(t, "trigpayee") == 0 {
+		// a payee whose name holds a trigger character, typed up to and including it: the request is
+		// made because that character was typed, and the cursor still stands in a header
+		tp := rapid.SampledFrom([]struct{ payee, typed string }{{"Amazon: books", "Amazon:"}, {"Lunch @ Mario", "Lunch @"}, {"Rent: May", "Rent:"}, {"a=b shop", "a="}}).Draw(t, "trigpayeev")
+		fj := ws.Files[c.From].Journal
+		fj.Entries = append(fj.Entries, m.Entry{Tx: &m.Tx{Date: m.Date{Y: 2024, M: 5, D: 6, Sep: "-", Pad: true}, Payee: tp.payee,
+			Body: []m.BodyItem{{P: &m.Posting{Account: pick(t, names.accounts.all, "assets:cash", "tpacct"), Amt: &m.Amount{Q: m.Num{Mant: "1"}, Sym: "EUR", SymSpace: true}, Indent: "    ", Sep: "  "}},
+				{P: &m.Posting{Account: "equity:opening", Indent: "    ", Sep: "  "}}}}, Blank: 1})
+		s = C16Sit{Kind: "payee", Before: "2024-06-02 ", Fragment: tp.typed}
+		c.Trigger = true
 	}
 	if c.Max >= 50 && !p.Off("c16.bulk") && rapid.IntRange(0, 3).Draw(t, "bulk") == 0 {
 		// more existing names than most limits let through: the limit is what bounds the list, nothing else
